@@ -384,7 +384,81 @@ def e2e_script_one(chk, sseed, directed=False, ratio=None):
         wb.destroy()
 
 
+NESTED = ["http://up.example/debian", "http://up.example/debian/pve"]
+
+
+def nested_one(chk, sseed):
+    """two repositories whose mirror directories are nested (http://host/debian and http://host/debian/pve), both cleaned,
+    the inner one protected from the outer one's cleaner by `skip-clean <inner URL>` - the documented way to set this up;
+    in either order of the configuration lines, with automatic cleaning or by executing the generated script:
+    nothing below the skip-clean path may be removed by either repository's cleaning (bystander files placed there and
+    everything the inner repository had published), the inner repository stays complete, and the outer one is still
+    cleaned (a stale bystander outside the protected path goes away).  nthreads is 1: mirrored at the same time, the outer
+    repository's skel cleaning (which knows no skip-clean) removes the inner one's freshly fetched indices and the inner
+    repository fails with exit status 1 - observed on the unchanged code, nothing wrong is published, outside C04"""
+    from core import vloop
+    from e2e import common, runner, run_e2e
+    base = random.Random(sseed)
+    order = [0, 1] if base.random() < 0.5 else [1, 0]
+    urls = [NESTED[i] for i in order]
+    auto = base.random() < 0.6
+    skip = NESTED[1] + base.choice(["", "/"])
+    w = common.World(random.Random(sseed + "-w"), 2, urls=urls, select_all=True,
+                     settings={"wipe_size_ratio": "0", "wipe_count_ratio": "0", "_autoclean": "1" if auto else "0", "nthreads": "1"},
+                     extra_lines=[f"skip-clean {skip}"], name="sbN")
+    replay = {"scenario_seed": sseed, "nested": True, "lines": w.lines + w.extra_lines, "autoclean": auto}
+    try:
+        hist = random.Random(sseed + "-h")
+        versions = [w.repos, [common.evolve(hist, r) for r in w.repos]]
+        versions.append([common.evolve(hist, r) for r in versions[-1]])
+        inner_dir = runner.mirror_dir(w.sb, NESTED[1])
+        outer_dir = runner.mirror_dir(w.sb, NESTED[0])
+        protected = {}
+        for step, vs in enumerate(versions):
+            res = w.run(repos=vs, chooser=vloop.RandomChooser(hist.randrange(1 << 30)))
+            script = os.path.join(w.sb.var, "clean.sh")
+            if not auto and os.path.exists(script):
+                subprocess.run(["/bin/sh", script], capture_output=True, text=True, cwd=w.sb.top)
+                chk.count("e2e_clean_scripts_executed")
+            if res.exit != 0:
+                chk.count("nested_runs_not_exiting_0")
+                break
+            now = {}
+            for dp, dns, fns in os.walk(inner_dir):
+                for f in fns:
+                    q = os.path.join(dp, f)
+                    if os.path.isfile(q) and not os.path.islink(q):
+                        now[os.path.relpath(q, inner_dir)] = os.path.getsize(q)
+            gone = sorted(k for k in protected if k not in now and not k.startswith("dists"))
+            if gone:
+                chk.violation("removed-under-skip-clean:nested", dict(replay, step=step),
+                              f"after run {step}: {len(gone)} files below the skip-clean path {skip} were removed, e.g. {gone[:3]}")
+                return
+            if step > 0 and os.path.exists(os.path.join(outer_dir, "junk", "stale.bin")):
+                chk.violation("left-unneeded:nested", dict(replay, step=step), "the outer repository was not cleaned: junk/stale.bin is still there")
+                return
+            bad = w.fsck(NESTED[1])
+            if bad:
+                chk.violation("removed-needed:nested", dict(replay, step=step), f"inner repository incomplete after run {step}: {str(bad)[:300]}")
+                return
+            protected = now
+            # bystanders: one below the protected path (must stay), one outside it in the outer repository (must go)
+            for q, data in ((os.path.join(inner_dir, "pool", "bystander.bin"), b"keep me"), (os.path.join(outer_dir, "junk", "stale.bin"), b"stale")):
+                os.makedirs(os.path.dirname(q), exist_ok=True)
+                with open(q, "wb") as fp:
+                    fp.write(data)
+            protected[os.path.join("pool", "bystander.bin")] = 7
+        chk.evaluated(("nested", tuple(order), auto), sample={"nested": True, "order": order, "autoclean": auto})
+        chk.count("nested_repository_worlds")
+        chk.traces += len(versions)
+    finally:
+        run_e2e.L2_LOG.clear()   # (the whole-run model describes one mirror directory; two repositories writing below the same one are outside it)
+        w.destroy()
+
+
 def run(chk, tier, rng):
+    for i in range(6 if tier == "quick" else 80):
+        nested_one(chk, f"C04n-{chk.seed}-{i}")
     for i in range(6 if tier == "quick" else 40):
         e2e_script_one(chk, f"C04ed-{chk.seed}-{i}", directed=True)   # corpus: the first configured repository never succeeds
     # V1, V2, V1 under a grid of wipe ratios: for some of them the update stays below the ratio and the way back reaches it
@@ -433,6 +507,12 @@ def run(chk, tier, rng):
 def replay(rep):
     from core.check import Check
     chk = Check("C04", "quick", 0)
+    if rep["replay"].get("nested"):
+        chk.known = []
+        nested_one(chk, rep["replay"]["scenario_seed"])
+        for sig, path, msg, _ in chk.violations:
+            print(f"REPLAY VIOLATION {sig}: {msg}")
+        return 1 if chk.violations else 0
     chk.known = []
     r = rep["replay"]
     if r.get("e2e_script"):
